@@ -139,7 +139,8 @@ Section HssComplete.
       exists structs,
         parse_spks K n (length below) (concat spks ++ rest) = Ok (structs, rest)
         /\ verify_chain K n H (pk_struct p seed I) structs = Some (pk_struct bp bseed bI)
-        /\ level_ok (bp, bq) /\ length bI = c_ilen K.
+        /\ level_ok (bp, bq) /\ length bI = c_ilen K
+        /\ map (fun sp => s_q (fst sp)) structs ++ [bq] = q :: map snd below.
   Proof.
     induction below as [|[p' q'] below IH]; intros seed I p q rest spks bseed bI bp bq Lk Fb HI E.
     - cbn [expand] in E. injection E as <- <- <- <- <-. exists []. cbn. repeat split; try assumption; apply Lk.
@@ -150,12 +151,12 @@ Section HssComplete.
       apply pair_equal_spec in E. destruct E as [E1 E2]. subst spks bottom.
       inversion Fb as [|? ? Lk' Fb']; subst.
       destruct (IH cseed cI p' q' rest spks' bseed bI bp bq Lk' Fb' HcI EE)
-        as [structs [P [V [Lb HbI]]]].
+        as [structs [P [V [Lb [HbI HQ]]]]].
       exists ((sig_struct I seed p q (randomizer K H cseed cI q) (tree_pk K n H p' cseed cI),
                pk_struct p' cseed cI) :: structs).
       destruct Lk as [Wp Hq]. cbn [fst snd] in Wp, Hq.
       destruct Lk' as [Wp' Hq']. cbn [fst snd] in Wp', Hq'.
-      split; [|split; [|split]].
+      split; [|split; [|split; [|split]]].
       + change (length ((p', q') :: below)) with (S (length below)).
         rewrite parse_spks_S, concat_cons. rewrite <- !app_assoc.
         rewrite parse_signed by (try assumption; apply randomizer_length). cbn [bind].
@@ -165,6 +166,7 @@ Section HssComplete.
         rewrite lms_verify_signed by assumption. exact V.
       + exact Lb.
       + exact HbI.
+      + cbn [map fst snd s_q sig_struct app]. f_equal. exact HQ.
   Qed.
 
   Lemma root_I_length seed : length (snd (root_seed_I K H seed)) = c_ilen K.
@@ -186,10 +188,12 @@ Section HssComplete.
 
   Theorem hss_complete (ps : list param) (seed msg : bytes) (c : N) :
     ps <> [] -> (length ps <= c_max_levels K)%nat -> Forall wf_param ps ->
-    exists sig pk,
+    exists sig pk s,
       hss_signature K n H ps seed c msg = Ok sig
       /\ hss_public_key K n H ps seed = Ok pk
-      /\ hss_verify K n H msg sig pk = Ok tt.
+      /\ hss_verify K n H msg sig pk = Ok tt
+      /\ parse_hss_sig K n sig = Ok s
+      /\ map (fun sp => s_q (fst sp)) (h_spks s) ++ [s_q (h_sig s)] = leaf_digits (heights_of ps) c.
   Proof.
     intros Hne Hlen Fw.
     pose proof (digits_in_range ps c Fw) as Fl.
@@ -204,32 +208,45 @@ Section HssComplete.
     destruct (expand K n H s0 I0 p0 q0 (combine ps' qs)) as [spks [[[bseed bI] bp] bq]] eqn:EE.
     destruct (expand_verifies (combine ps' qs) s0 I0 p0 q0
                 (lms_sign_bytes K n H bI bseed (fst bp) (snd bp) bq (randomizer K H bseed bI bq) msg ++ [])
-                spks bseed bI bp bq L0 Fl' HI0 EE) as [structs [P [V [[Wb Hbq] HbI]]]].
+                spks bseed bI bp bq L0 Fl' HI0 EE) as [structs [P [V [[Wb Hbq] [HbI HQ]]]]].
     cbn [fst snd] in Wb, Hbq.
-    eexists. eexists. split; [reflexivity|]. split; [reflexivity|].
+    eexists. eexists.
+    exists {| h_nspk := N.of_nat (length (combine ps' qs)); h_spks := structs;
+              h_sig := sig_struct bI bseed bp bq (randomizer K H bseed bI bq) msg |}.
+    split; [reflexivity|]. split; [reflexivity|].
     assert (Hk : length (combine ps' qs) = length ps').
     { rewrite combine_length. cbn [length] in Ld. lia. }
     assert (Hsmall : N.of_nat (length (combine ps' qs)) < 4294967296).
     { rewrite Hk. cbn [length] in Hlen. lia. }
-    unfold hss_verify, parse_hss_sig.
-    rewrite rd_app by apply be_length. cbn [bind].
-    rewrite be4_dec by assumption.
-    destruct (N.leb_spec (N.of_nat (c_max_levels K)) (N.of_nat (length (combine ps' qs)))) as [Hbad|_].
-    { rewrite Hk in Hbad. cbn [length] in Hlen. lia. }
-    rewrite Nat2N.id.
-    rewrite <- (app_nil_r (lms_sign_bytes K n H bI bseed (fst bp) (snd bp) bq (randomizer K H bseed bI bq) msg)).
-    rewrite P. cbn [bind].
-    rewrite parse_signed by (try assumption; apply randomizer_length). cbn [bind].
-    unfold parse_hss_pk.
-    rewrite rd_app by apply be_length. cbn [bind].
-    rewrite <- (app_nil_r (tree_pk K n H p0 s0 I0)).
-    inversion Fw as [|? ? W0 _]; subst.
-    rewrite parse_tree_pk by assumption. cbn [bind].
-    cbn [h_nspk h_spks h_sig].
-    rewrite be4_dec by (cbn [length] in *; lia).
-    replace (N.of_nat (length (combine ps' qs)) + 1 =? N.of_nat (length (p0 :: ps'))) with true
-      by (symmetry; apply N.eqb_eq; rewrite Hk; cbn [length]; lia).
-    cbn [negb]. rewrite V.
-    rewrite lms_verify_signed by assumption. reflexivity.
+    assert (PS : parse_hss_sig K n
+                   (be 4 (N.of_nat (length (combine ps' qs))) ++ concat spks ++
+                    lms_sign_bytes K n H bI bseed (fst bp) (snd bp) bq (randomizer K H bseed bI bq) msg)
+                 = Ok {| h_nspk := N.of_nat (length (combine ps' qs)); h_spks := structs;
+                         h_sig := sig_struct bI bseed bp bq (randomizer K H bseed bI bq) msg |}).
+    { unfold parse_hss_sig.
+      rewrite rd_app by apply be_length. cbn [bind].
+      rewrite be4_dec by assumption.
+      destruct (N.leb_spec (N.of_nat (c_max_levels K)) (N.of_nat (length (combine ps' qs)))) as [Hbad|_].
+      { rewrite Hk in Hbad. cbn [length] in Hlen. lia. }
+      rewrite Nat2N.id.
+      rewrite <- (app_nil_r (lms_sign_bytes K n H bI bseed (fst bp) (snd bp) bq (randomizer K H bseed bI bq) msg)).
+      rewrite P. cbn [bind].
+      rewrite parse_signed by (try assumption; apply randomizer_length). reflexivity. }
+    split; [|split; [exact PS|]].
+    - unfold hss_verify. rewrite PS. cbn [bind].
+      unfold parse_hss_pk.
+      rewrite rd_app by apply be_length. cbn [bind].
+      rewrite <- (app_nil_r (tree_pk K n H p0 s0 I0)).
+      inversion Fw as [|? ? W0 _]; subst.
+      rewrite parse_tree_pk by assumption. cbn [bind].
+      cbn [h_nspk h_spks h_sig].
+      rewrite be4_dec by (cbn [length] in *; lia).
+      replace (N.of_nat (length (combine ps' qs)) + 1 =? N.of_nat (length (p0 :: ps'))) with true
+        by (symmetry; apply N.eqb_eq; rewrite Hk; cbn [length]; lia).
+      cbn [negb]. rewrite V.
+      rewrite lms_verify_signed by assumption. reflexivity.
+    - cbn [h_spks h_sig s_q sig_struct]. rewrite HQ. f_equal.
+      cbn [length] in Ld. clear -Ld. revert qs Ld. induction ps' as [|p r IH]; intros [|x xs] L; cbn in L; try lia; [reflexivity|].
+      cbn [combine map snd]. f_equal. apply IH. lia.
   Qed.
 End HssComplete.
